@@ -15,6 +15,7 @@ Bases == {
   [id |-> "c4", valid |-> TRUE, items |-> <<Attr("tags", Ls(<<>>)), Lim(0), Attr("flag", B(FALSE)), Attr("name", S("100%{x ${y} $${z}"))>>],
   [id |-> "c5", valid |-> TRUE, items |-> <<Sv("a", "h1", <<>>), Sv("b", "h2", Port(1)), Attr("count", N(0)), Sv("c", "h3", <<>>), Attr("name", Tm("interp", "v2"))>>],
   [id |-> "c7", valid |-> TRUE, items |-> <<Attr("name", Tm("pct", "50%{x} ")), Sv("t", "x", Opt("y")), Attr("tags", Ls(<<"%{", "%%{", "$">>))>>],
+  [id |-> "c8", valid |-> TRUE, items |-> <<Sv("h", "x", <<>>), Attr("name", Tm("here", "2 up\n")), Attr("count", N(1))>>],
   [id |-> "c6", valid |-> TRUE, items |-> <<Attr("name", S("")), Sv("one", "h", Port(8080) \o Opt(""))>>],
   [id |-> "e1", valid |-> FALSE, items |-> <<Blk("server", <<"web">>, Port(1)), Attr("name", S("x"))>>],
   [id |-> "e2", valid |-> FALSE, items |-> <<Attr("count", S("abc")), Sv("web", "h", <<>>), Attr("name", S("n"))>>],
